@@ -120,7 +120,13 @@ def sibling_runs(ctx):
     pyc = samples.dirty_pyc()
     for kind in ("file", "missing", "symlink-out", "symlink-in", "dir", "fifo", "file-mtime0"):
         for check in (False, True):
-            for name in ("mod.cpython-312.pyc", "mod.pyc", "mod.opt-1.pyc", "mod.cpython-312.opt-1.pyc", "mod.cpython-312.opt-2.pyc"):
+            for name in ("mod.cpython-312.pyc", "mod.pyc", "mod.opt-1.pyc", "mod.cpython-312.opt-1.pyc", "mod.cpython-312.opt-2.pyc", "LINKED"):
+                # LINKED: the pyc has a second name (as after hard-link de-duplication of optimisation levels): it is rewritten in place
+                linked = name == "LINKED"
+                if linked:
+                    if kind not in ("file", "missing"):
+                        continue
+                    name = "mod.cpython-312.pyc"
                 t = fh.Tree()
                 try:
                     t.mkdir("d/__pycache__")
@@ -139,18 +145,22 @@ def sibling_runs(ctx):
                         t.mkdir(py)
                     elif kind == "fifo":
                         os.mkfifo(t.path(py))
+                    if linked:
+                        t.link("d/__pycache__/" + name, "d/__pycache__/mod.cpython-312.opt-1.pyc")
                     before = fh.snapshot(t.root)
                     args = ["--handler", "pyc-zero-mtime"] + (["--check"] if check else []) + [t.path("d")]
                     rc, out = fh.run_cli(args, epoch=None, timeout=20)
                     after = fh.snapshot(t.root)
                     n += 1
-                    label = "sibling=%s check=%s name=%s" % (kind, check, name)
+                    label = "sibling=%s check=%s name=%s%s" % (kind, check, name, " (two links)" if linked else "")
                     if rc == 124:
                         fails.append(("sibling-hang", "run did not terminate (%s)" % label, label))
                         continue
                     allowed = set()
                     if not check:
                         allowed.add("d/__pycache__/" + name)
+                        if linked:
+                            allowed.add("d/__pycache__/mod.cpython-312.opt-1.pyc")
                         if kind == "file":
                             allowed.add(py)
                     d = [x for x in fh.snap_equal(before, after) if x.split(":")[0] not in allowed]
@@ -191,6 +201,7 @@ def run(ctx):
     impl, model, mism = hd.differential(ctx, cases, "pyc-zero-mtime")
     known = hd.known_kinds_for("C18")
     fails = hd.apply_oracle(ctx, cases, impl, oracle, known)
+    hd.cli_pass(ctx, cases, impl, "pyc-zero-mtime", "pyc")
     sfails, nsib = sibling_runs(ctx) if ok2 else ([], 0)
     seen = set()
     for kind, msg, label in sfails:
